@@ -756,12 +756,6 @@ pub fn analyse(sc: &Scenario, out: &RunOutput) -> Analysis {
                                             if !rr_class_valid(rr) || !rr.schema_ok {
                                                 fuzzy = true;
                                             }
-                                            // stray OPT pseudo-records are left out of the store
-                                            // model altogether (their identity includes bits of
-                                            // the TTL field; the dump leaves them out as well)
-                                            if rr.rtype == t::OPT {
-                                                continue;
-                                            }
                                             recs.push((rr.key(), rr.ttl, rr.cache_flush()));
                                         }
                                         if msg.end != dg.bytes.len() {
@@ -779,9 +773,6 @@ pub fn analyse(sc: &Scenario, out: &RunOutput) -> Analysis {
                                     if let Ok(Ok(p)) = simrt::sim::quiet_panics(|| std::panic::catch_unwind(|| simple_dns::Packet::parse(&dg.bytes[..]))) {
                                         for r in p.answers.iter().chain(p.additional_records.iter()) {
                                             if let Some((k, ttl, cf, _)) = crate::runner::record_key(r) {
-                                                if k.rtype == t::OPT {
-                                                    continue;
-                                                }
                                                 recs.push((k, ttl, cf));
                                             }
                                         }
@@ -875,6 +866,12 @@ pub fn analyse(sc: &Scenario, out: &RunOutput) -> Analysis {
                                     let mut maybe = BTreeSet::new();
                                     let mut had_expired = false;
                                     for (k, e) in &m.cache {
+                                        if k.rtype == t::OPT {
+                                            // stray OPT pseudo-records are compared neither way
+                                            // (the dump leaves them out too): two of them can
+                                            // share a key and differ in the EDNS version bits
+                                            continue;
+                                        }
                                         if e.expires > lt && !e.optional {
                                             live.insert(k.clone());
                                         } else if e.expires >= lt {
